@@ -39,6 +39,10 @@ Reader: TypeAlias = Callable[[IO[bytes]], T]
 
 
 def read_exact(buffer: IO[bytes], num_bytes: int) -> bytes:
+    # A negative size makes the underlying stream read until EOF, which on a live
+    # connection means blocking and consuming bytes that belong to other messages.
+    if num_bytes < 0:
+        raise BufferUnderflow(f"Expected to read {num_bytes}, which is not a valid size")
     value = buffer.read(num_bytes)
     if len(value) != num_bytes:
         raise BufferUnderflow(f"Expected to read {num_bytes}, got {len(value)}")
